@@ -148,3 +148,15 @@ func (p *Path) armTaken(sel *ssa.Select) int {
 	}
 	return -1
 }
+
+// armTakenIn: like armTaken but only considers atoms of the given frame (a select inside an inlined helper).
+func (p *Path) armTakenIn(sel *ssa.Select, f *Frame) int {
+	q := *p
+	q.Atoms = nil
+	for _, a := range p.Atoms {
+		if a.Cond.F == f {
+			q.Atoms = append(q.Atoms, a)
+		}
+	}
+	return q.armTaken(sel)
+}
